@@ -449,8 +449,9 @@ pub fn worker(args: &[String]) -> i32 {
   2
 }
 
-/// run one ROM file through a real executable; returns the bytes after the "Loading" line
-fn e2e(bin: &str, rom: &str, want_len: usize) -> Result<Vec<u8>, String> {
+/// run one ROM file through a real executable; returns everything it wrote to standard output
+/// once at least `want_len` bytes are there and 400 ms have passed (or it exited / 20 s)
+fn e2e_raw(bin: &str, rom: &str, want_len: usize) -> Result<Vec<u8>, String> {
   use std::io::Read;
   use std::process::{Command, Stdio};
   let out_path = format!("{}/c18_e2e_{}.bin", crate::util::pool::tmp_dir(), unsafe { libc::getpid() });
@@ -464,25 +465,28 @@ fn e2e(bin: &str, rom: &str, want_len: usize) -> Result<Vec<u8>, String> {
     if let Ok(mut f) = std::fs::File::open(&out_path) {
       let _ = f.read_to_end(&mut data);
     }
-    let body = data.iter().position(|b| *b == b'\n').map(|p| data.len() - p - 1).unwrap_or(0);
     let exited = matches!(child.try_wait(), Ok(Some(_)));
-    if exited || (body >= want_len && t0.elapsed().as_millis() > 400) || t0.elapsed().as_secs() > 20 {
+    if exited || (data.len() >= want_len && t0.elapsed().as_millis() > 400) || t0.elapsed().as_secs() > 20 {
       break;
     }
   }
   let _ = child.kill();
   let _ = child.wait();
   let _ = std::fs::remove_file(&out_path);
-  match data.iter().position(|b| *b == b'\n') {
-    Some(p) => {
-      let head = String::from_utf8_lossy(&data[..p]).to_string();
-      if !head.starts_with("Loading") {
-        return Err(format!("unexpected first line {:?}", head));
-      }
-      Ok(data[p + 1..].to_vec())
-    },
-    None => Err(format!("no output line (got {} bytes)", data.len())),
+  Ok(data)
+}
+
+/// What the executable prints on its own before the guest runs (a banner naming the
+/// cartridge) is not serial output and its wording is nobody's property: it is measured with a
+/// ROM of the same header whose program sends nothing, and the real run must then print exactly
+/// that followed by the expected bytes.
+fn e2e(bin: &str, rom: &str, silent_rom: &str, want: &[u8]) -> Result<Vec<u8>, String> {
+  let banner = e2e_raw(bin, silent_rom, 0)?;
+  let got = e2e_raw(bin, rom, banner.len() + want.len())?;
+  if got.len() < banner.len() || got[..banner.len()] != banner[..] {
+    return Err(format!("output does not start with what the same executable prints for a silent ROM of the same header ({:?})", String::from_utf8_lossy(&banner)));
   }
+  Ok(got[banner.len()..].to_vec())
 }
 
 pub fn run(tier: &str) -> i32 {
@@ -563,9 +567,12 @@ pub fn run(tier: &str) -> i32 {
     let mut img = rom_only_image();
     img[0x150..0x150 + code.len()].copy_from_slice(&code);
     let rom = world::write_rom_file(&img);
+    let mut silent = rom_only_image();
+    silent[0x150..0x150 + 5].copy_from_slice(&[0xF3, 0x76, 0x00, 0x18, 0xFC]); // DI; L: HALT; NOP; JR L
+    let silent_rom = world::write_rom_file(&silent);
     for (var, label) in [("GBMC_REPO_BIN_NOJIT", "repo-nojit"), ("GBMC_REPO_BIN_JIT", "repo-jit")].iter() {
       match std::env::var(var) {
-        Ok(bin) if std::path::Path::new(&bin).exists() => match e2e(&bin, &rom, want.len()) {
+        Ok(bin) if std::path::Path::new(&bin).exists() => match e2e(&bin, &rom, &silent_rom, &want) {
           Ok(got) => {
             e2e_runs += 1;
             if got != want {
@@ -585,6 +592,7 @@ pub fn run(tier: &str) -> i32 {
       }
     }
     let _ = std::fs::remove_file(&rom);
+    let _ = std::fs::remove_file(&silent_rom);
   }
   let _ = std::fs::remove_file(&image);
   rep.evaluations = progs + jit_progs;
